@@ -13,6 +13,10 @@ type ReadBuffers struct {
 }
 
 func (t *ReadBuffers) Receive(bs []byte) ([]byte, bool, error) {
+	if len(bs) < 8 {
+		// shorter than the segment header: not a segment, discard it
+		return nil, false, nil
+	}
 	t.Lock()
 	defer t.Unlock()
 
